@@ -89,13 +89,44 @@ def rule_mode_pairing(ctx, F):
     for which, idx in (("key_words", 0), ("flags_byte", 1)):
         fn = F.need_fn("hazmat::Mode::<'a>::%s" % which)
         arms = {}
+        def specialise(e, vname):
+            """in an or-pattern arm the bound payload is a phi over the variants' payloads: keep the one of variant vname"""
+            if not isinstance(e, tuple):
+                return e
+            if e and e[0] == "phi" and len(e) > 3 and isinstance(e[3], tuple):
+                alts = [a for a in e[3] if ("as", vname) in _flat(a)]
+                if len(alts) == 1:
+                    return specialise(alts[0], vname)
+            return tuple(specialise(x, vname) for x in e)
+
+        def _flat(x):
+            out = []
+            if isinstance(x, tuple):
+                out.append(x)
+                for y in x:
+                    out.extend(_flat(y))
+            return out
         for b, gs, e in ret_alternatives(fn):
-            vi = None
+            vis = []
             for c, tr in gs:
                 if isinstance(c, tuple) and c and c[0] == "switchval":
-                    vi = tr
-            if vi is not None and vi < len(variants):
-                arms[variants[vi]] = (e, fn.blocks[b]["term"].get("s"))
+                    vis = [tr]
+                elif isinstance(c, tuple) and c and c[0] == "switchin":
+                    vis = list(tr)
+            for vi in vis:
+                if vi < len(variants):
+                    arms[variants[vi]] = (specialise(e, variants[vi]) if len(vis) > 1 else e, fn.blocks[b]["term"].get("s"))
+            if not vis:
+                # an or-pattern arm (`A(k) | B(k) => f(k)`): the arm body is shared, the bound payload is a phi with one definition
+                # per variant -- split the alternative by the variant that guards each definition of the payload
+                phis = [x for x in _flat(e) if isinstance(x, tuple) and x and x[0] == "phi" and isinstance(x[1], int)]
+                if len(set(phis)) == 1:
+                    ph = phis[0]
+                    for b2, gs2, dv in local_defs_with_guards(fn, ph[1]):
+                        for c, tr in gs2:
+                            if isinstance(c, tuple) and c and c[0] == "switchval" and isinstance(tr, int) and tr < len(variants):
+                                sub = lambda x, ph=ph, dv=dv: dv if x == ph else (tuple(sub(y) for y in x) if isinstance(x, tuple) else x)
+                                arms[variants[tr]] = (sub(e), fn.blocks[b]["term"].get("s"))
         for v in variants:
             if v not in MODE_TABLE:
                 continue
